@@ -35,3 +35,9 @@ Check (VF.Properties.C15.C15_full_stack_all_messages : forall ms (m : msg) (mav 
 Check (VF.Properties.C15.C15_full_stack_all_messages_exact : forall (m : msg) (mav : bool) (d : dev) (us : list sop),
   wf_msg m = true -> queue_printable d = true -> message_ops m = Some us ->
   (dev_message d mav (render_msg m) = Val (op_message d mav us) <-> stray_separator m = false)).
+From VF Require Import Gen_Esr ErrTable Lexer Contrib_anybytes.
+
+
+Check (VF.Properties.C15.C15_dev_message_preserves_regs_ok : forall d mav bytes d' out r,
+  regs_ok d -> dev_message d mav bytes = Val (d', out, r) -> regs_ok d').
+Check (VF.Properties.C15.C15_dev_session_regs_ok : forall msgs d d', regs_ok d -> dev_session d msgs = Val d' -> regs_ok d').
